@@ -1007,7 +1007,7 @@ func ruleTextPrimitives(p *Prog, r *Out) {
 
 func init() {
 	register(&Rule{
-		Name: "client-request-shape", Props: []string{"C02", "C07", "C18", "C12"}, Engine: "FDE", Floor: 20,
+		Name: "client-request-shape", Props: []string{"C02", "C07", "C18", "C12"}, Engine: "FDE", Floor: 23,
 		Doc: "the client's request writer emits :authority, :method, :path, :scheme (each taken from the request and appended right after it is set), then every regular field lower-cased and minus connection-specific ones; END_STREAM is on HEADERS exactly when there is no body (a stream, or at least one octet); stream ids come from nextID and advance by 2; a pending body is registered with the server's stream window; a stream slot is taken after a successful write and given back exactly when the request leaves the table; the send loop refills only when nothing is buffered, sends min(body, stream window, connection window) floored at 0, stops without sending only when nothing may go out and the body is not finished; a streamed chunk keeps every octet read, and the body is finished by EOF or by reaching its declared length; the handshake grants maxWindow-65535 connection credit, applies the server's first SETTINGS and acknowledges it once",
 		Run: ruleClientRequestShape,
 	})
@@ -1159,6 +1159,9 @@ func ruleClientRequestShape(p *Prog, r *Out) {
 				ok, _, _, folded := p.equivOver(x.Rhs[0], fdeDomain{[]string{"pb.size"}, [][]int64{{-1, 0, 1, 5}}}, nil, func(e fdeEnv) int64 { return b2i(e["pb.size"] == 0) })
 				drained = ok && folded
 			}
+			if l == "pb.window" && squash(p.text(x.Rhs[0])) == "c.streamWindow" {
+				pbWin = true
+			}
 			if l == "pb.body" && squash(p.text(x.Rhs[0])) == "req.Body()" {
 				bodyBuf = true
 			}
@@ -1186,6 +1189,76 @@ func ruleClientRequestShape(p *Prog, r *Out) {
 			}
 		}
 		r.check(ok, "stream slot returned when the request is resolved", p.pos(fd.Pos()), "if c.takeReq(stream) { openStreams-- }", "finish no longer gives the stream slot back exactly when it removed the request from the table: the connection runs out of streams after MAX_CONCURRENT_STREAMS requests, or counts below zero")
+		// 7b. a body abandoned on a stream that ended cleanly resets the stream
+		var dropIf *ast.IfStmt
+		for _, s := range fd.Body.List {
+			if ifs, isIf := s.(*ast.IfStmt); isIf && strings.Contains(p.text(ifs.Cond), "deletePending") {
+				dropIf = ifs
+			}
+		}
+		if dropIf != nil {
+			atoms, pure := pureJunction(dropIf.Cond, true)
+			shape := pure && len(atoms) == 2
+			first := ""
+			for i, a := range atoms {
+				t := squash(p.text(a.Cond))
+				if i == 0 {
+					first = t
+				}
+				if !a.Val || (t != "c.deletePending(stream)" && t != "err==nil") {
+					shape = false
+				}
+			}
+			// the pending body is dropped whatever the error, so the call has to come first
+			shape = shape && first == "c.deletePending(stream)"
+			reset := false
+			inspectCalls(dropIf.Body, func(c2 *ast.CallExpr) {
+				if p.calleeOf(c2) == "(*Conn).cancelStream" && len(c2.Args) == 2 && p.text(c2.Args[0]) == "stream" {
+					if v, okv := p.intConst(c2.Args[1]); okv && (v == 8 || v == 0) {
+						reset = true
+					}
+				}
+			})
+			r.check(shape && reset && dropIf.Else == nil, "a body abandoned by a complete response resets the stream", p.pos(dropIf.Pos()), "if c.deletePending(stream) && err == nil { c.cancelStream(stream, CANCEL) }", "finish no longer drops the pending body on every resolution and resets the stream exactly when a body was still owed and the stream ended without error: the server keeps a half-closed stream for the life of the connection (or a reset stream is reset again)")
+		} else {
+			r.bad("a body abandoned by a complete response resets the stream", p.pos(fd.Pos()), "finish no longer tests whether a body was still pending when the stream ended")
+		}
+	}
+	// 7c. deletePending answers whether a body was pending and closes a streamed one
+	if fd := p.decl("(*Conn).deletePending"); fd != nil {
+		r.fn("(*Conn).deletePending")
+		nilFalse, othersTrue, closes, nRet := false, true, false, 0
+		ast.Inspect(fd.Body, func(n ast.Node) bool {
+			switch x := n.(type) {
+			case *ast.IfStmt:
+				if squash(p.text(x.Cond)) == "pb==nil" {
+					if res := firstReturn(x.Body); len(res) == 1 && p.text(res[0]) == "false" {
+						nilFalse = true
+					}
+					return false
+				}
+			case *ast.ReturnStmt:
+				nRet++
+				if len(x.Results) != 1 || p.text(x.Results[0]) != "true" {
+					othersTrue = false
+				}
+			case *ast.CallExpr:
+				if p.calleeOf(x) == "(*Conn).closeBodyStream" {
+					closes = true
+				}
+			}
+			return true
+		})
+		r.check(nilFalse && othersTrue && nRet >= 1, "deletePending reports whether a body was pending", p.pos(fd.Pos()), "pb == nil -> false; otherwise true", "deletePending no longer answers false exactly when no body was pending: finish resets streams that were complete, or leaves open the ones it abandoned")
+		closed := false
+		if cb := p.decl("(*Conn).closeBodyStream"); cb != nil {
+			inspectCalls(cb.Body, func(c2 *ast.CallExpr) {
+				if strings.HasSuffix(p.calleeOf(c2), ".CloseBodyStream") {
+					closed = true
+				}
+			})
+		}
+		r.check(closes && closed, "an abandoned streamed body is closed on the Request", p.pos(fd.Pos()), "deletePending -> closeBodyStream -> Request.CloseBodyStream", "a streamed body the connection gives up is no longer closed and detached from the Request, which is what tells RoundTrip that it cannot be replayed (and what releases the file or pipe behind it)")
 	}
 	// 8. hasMore
 	if fd := p.decl("(*pendingBody).hasMore"); fd != nil {
